@@ -41,3 +41,10 @@ def run(ctx):
         "type annotations of sugar nodes equal the types gogen infers (checked by the structural tie)",
     ]
     common.standard(ctx, "GopModel.Props.C02", "c02", 100, 1500, RULE, driver="drv_minigo")
+
+
+def replay(ctx, obj):
+    """Re-run one recorded scenario (regenerated from <seed>:<index>) through the real compiler and the model."""
+    from .. import replay as rp
+    ctx.driver_exe = "drv_minigo"
+    return rp.generic(ctx, obj)
